@@ -69,7 +69,7 @@ func Load(o *Overlay, patterns []string) (*Loaded, error) {
 		Mode:    packages.LoadAllSyntax,
 		Dir:     o.Repo,
 		Overlay: o.Files,
-		Env:     append(os.Environ(), "GOFLAGS=-mod=mod", "GOPROXY=off", "GOSUMDB=off", "GOTOOLCHAIN=local"),
+		Env:     append(os.Environ(), "GOFLAGS=-mod=readonly", "GOPROXY=off", "GOSUMDB=off", "GOTOOLCHAIN=local"),
 	}
 	pkgs, err := packages.Load(cfg, patterns...)
 	if err != nil {
